@@ -251,4 +251,150 @@ theorem perfDay_agrees (cur : String → Bool) (cfg : Performance.Cfg) {g : perf
   · rw [k5]; exact Rat.zero_add _
   · rw [k6]; exact Rat.zero_add _
 
+/-! ## day after day -/
+
+/-- the model's `perfFrom` after `valuedDay`: the days come with their valued transactions -/
+def perfDaysV (cfg : Performance.Cfg) : AMap Knut.Commodity Rat × AMap Knut.Commodity Rat → List (Int × List Knut.Transaction) →
+    List Performance.DayPerf
+  | _, [] => []
+  | (vals, prev), (date, txs) :: rest =>
+    Performance.DayPerf.mk date prev (Performance.valuesDay cfg vals txs) (Performance.dayFlows cfg txs).1
+        (Performance.dayFlows cfg txs).2.1 (Performance.dayFlows cfg txs).2.2 ::
+      perfDaysV cfg (Performance.valuesDay cfg vals txs, Performance.valuesDay cfg vals txs) rest
+
+/-- `perfFrom` is `valuedDay` day by day followed by `perfDaysV` -/
+theorem perfFrom_eq (cfg : Performance.Cfg) : ∀ (days : List Knut.Day) (ps : Performance.PState),
+    Performance.perfFrom cfg ps days =
+      (match days with
+       | [] => .ok []
+       | d :: rest =>
+         match Performance.valuedDay cfg ps.bal d with
+         | .error e => .error e
+         | .ok (bal, txs) =>
+           match Performance.perfFrom cfg (Performance.PState.mk bal (Performance.valuesDay cfg ps.values txs)
+               (Performance.valuesDay cfg ps.values txs)) rest with
+           | .error e => .error e
+           | .ok r => .ok (Performance.DayPerf.mk d.date ps.prev (Performance.valuesDay cfg ps.values txs) (Performance.dayFlows cfg txs).1
+               (Performance.dayFlows cfg txs).2.1 (Performance.dayFlows cfg txs).2.2 :: r)) := by
+  intro days ps
+  cases days with
+  | nil => rfl
+  | cons d rest =>
+    simp only [Performance.perfFrom, Performance.perfDay, bind, Except.bind]
+    cases Performance.valuedDay cfg ps.bal d with
+    | error e => rfl
+    | ok r =>
+      obtain ⟨bal, txs⟩ := r
+      simp only
+      cases Performance.perfFrom cfg (Performance.PState.mk bal (Performance.valuesDay cfg ps.values txs)
+          (Performance.valuesDay cfg ps.values txs)) rest <;> rfl
+
+/-- the iteration orders of one day: of `ComputeValues.DayEnd`, and one pair per transaction for `ComputeFlows` -/
+abbrev DayOrders := List amounts.Key × List SplitOrders
+
+/-- the two processors over the days of the journal (each day through `ComputeValues`, then through `ComputeFlows`; the captured states
+go from day to day) -/
+def goDays (cg : performance.Calculator) :
+    performance.Calculator.ComputeValues.State × performance.Calculator.ComputeFlows.State → List (journal.Day × DayOrders) →
+      GoSem.Outcome (List journal.Day)
+  | _, [] => .ok []
+  | (g, st), (dg, o) :: rest =>
+    (processDay (cvProc cg o.1) g dg).bind fun r1 =>
+      (processDay (cfProc cg) (st, o.2) r1.2.1).bind fun r2 =>
+        (goDays cg (r1.1, r2.1.1) rest).bind fun ds => .ok (r2.2.1 :: ds)
+
+/-- a day of the Go journal before the two processors, with its iteration orders, against the model's day (date, valued transactions) -/
+def DayIn (cur : String → Bool) (cfg : Performance.Cfg) (vals : AMap Knut.Commodity Rat) (x : journal.Day × DayOrders)
+    (m : Int × List Knut.Transaction) : Prop :=
+  x.1.Date = m.1 ∧ x.1.Performance = none ∧ AllRel (TRel cur) x.1.Transactions m.2 ∧ x.2.1.Nodup ∧
+    (∀ k ∈ x.2.1, ∃ c, k = ckeyGo cur c ∧ (AMap.find? (Performance.valuesDay cfg vals m.2) c).isSome) ∧
+    (∀ c, (AMap.find? (Performance.valuesDay cfg vals m.2) c).isSome → ckeyGo cur c ∈ x.2.1) ∧
+    AllRel (OrdersOK cur cfg) x.2.2 m.2
+
+/-- **`ComputeValues` and `ComputeFlows` over all days** = `perfDaysV` (the model's `perfFrom` after `valuedDay`): for EVERY admissible
+family of iteration orders the days afterwards stand one by one for the model's `DayPerf`s (`DayRel`) — the hypothesis of
+`Perf_days_agrees`; never an error, never a panic -/
+theorem perfDays_agrees (cur : String → Bool) (cfg : Performance.Cfg) :
+    ∀ (xs : List (journal.Day × DayOrders)) (ms : List (Int × List Knut.Transaction))
+      (g : performance.Calculator.ComputeValues.State) (st : performance.Calculator.ComputeFlows.State)
+      (vals prev : AMap Knut.Commodity Rat), CVRel cur g vals prev →
+      (∀ (i : Nat) (h1 : i < xs.length) (h2 : i < ms.length),
+        DayIn cur cfg ((ms.take i).foldl (fun v m => Performance.valuesDay cfg v m.2) vals) xs[i] ms[i]) →
+      xs.length = ms.length →
+      ∃ ds, goDays (calcGo cur cfg) (g, st) xs = .ok ds ∧ AllRel (DayRel cur) ds (perfDaysV cfg (vals, prev) ms) := by
+  intro xs
+  induction xs with
+  | nil =>
+    intro ms g st vals prev _ _ hlen
+    cases ms with
+    | nil => exact ⟨[], rfl, .nil⟩
+    | cons _ _ => simp at hlen
+  | cons x xs ih =>
+    intro ms g st vals prev hcv hin hlen
+    cases ms with
+    | nil => simp at hlen
+    | cons m ms =>
+      obtain ⟨dg, o⟩ := x
+      obtain ⟨date, txs⟩ := m
+      have h0 := hin 0 (by simp) (by simp)
+      simp only [List.take_zero, List.foldl_nil, List.getElem_cons_zero] at h0
+      obtain ⟨hd, hnil, htx, ho, hsub, hcov, hos⟩ := h0
+      obtain ⟨g', dg1, st1, dg2, e1, e2, hcv', hrel⟩ := perfDay_agrees cur cfg hcv st dg date hd hnil txs htx o.1 ho hsub hcov o.2 hos
+      obtain ⟨ds, hds, hall⟩ := ih ms g' st1.1 (Performance.valuesDay cfg vals txs) (Performance.valuesDay cfg vals txs) hcv'
+        (by
+          intro i h1 h2
+          have := hin (i + 1) (by simpa using h1) (by simpa using h2)
+          simpa [List.take_succ_cons, List.foldl_cons] using this)
+        (by simpa using hlen)
+      refine ⟨dg2 :: ds, ?_, .cons hrel hall⟩
+      simp only [goDays, e1, e2, bind_ok', hds]
+
+/-- `valuedDay` day after day: the days with their valued transactions (`none`: an error of `ComputePrices`/`check`/`Valuate`) -/
+def valuedDays (cfg : Performance.Cfg) : BalState → List Knut.Day → Option (List (Int × List Knut.Transaction))
+  | _, [] => some []
+  | bal, d :: rest =>
+    match Performance.valuedDay cfg bal d with
+    | .error _ => none
+    | .ok (bal', txs) => (valuedDays cfg bal' rest).map ((d.date, txs) :: ·)
+
+/-- the model's `perfFrom` is `perfDaysV` of the valued days -/
+theorem perfFrom_perfDaysV (cfg : Performance.Cfg) : ∀ (days : List Knut.Day) (ps : Performance.PState) (ms : List (Int × List Knut.Transaction)),
+    valuedDays cfg ps.bal days = some ms → Performance.perfFrom cfg ps days = .ok (perfDaysV cfg (ps.values, ps.prev) ms) := by
+  intro days
+  induction days with
+  | nil => intro ps ms h; simp only [valuedDays, Option.some.injEq] at h; subst h; rfl
+  | cons d rest ih =>
+    intro ps ms h
+    rw [perfFrom_eq]
+    simp only [valuedDays] at h
+    cases hv : Performance.valuedDay cfg ps.bal d with
+    | error e => simp [hv] at h
+    | ok r =>
+      obtain ⟨bal, txs⟩ := r
+      simp only [hv, Option.map_eq_some_iff] at h
+      obtain ⟨ms', hms', rfl⟩ := h
+      simp only [hv]
+      rw [ih (Performance.PState.mk bal (Performance.valuesDay cfg ps.values txs) (Performance.valuesDay cfg ps.values txs)) ms' hms']
+      rfl
+
+/-- **`knut portfolio returns` from the valued days on** (`ComputeValues`, `ComputeFlows`, `Perf` from their initial states): for EVERY
+admissible family of iteration orders, when every day inside the reported span has a defined factor, what `Perf` prints is — line by
+line, with the exact values — the model's `perfLines` over the model's `perfFrom` -/
+theorem returns_pipeline_agrees (cur : String → Bool) (cfg : Performance.Cfg) (part : Knut.Partition) (ds0 : set.Set Int)
+    (hds : ∀ x, set.Set.Has ds0 x = part.endDates.contains x) (j : journal.Builder)
+    (xs : List (journal.Day × DayOrders)) (ms : List (Int × List Knut.Transaction))
+    (hin : ∀ (i : Nat) (h1 : i < xs.length) (h2 : i < ms.length),
+      DayIn cur cfg ((ms.take i).foldl (fun v m => Performance.valuesDay cfg v m.2) []) xs[i] ms[i])
+    (hlen : xs.length = ms.length)
+    (hdef : ∀ dp ∈ perfDaysV cfg ([], []) ms, (Performance.perfSpan part).contains dp.date = true → (Performance.factor dp).isSome) :
+    ∃ ds r', goDays (calcGo cur cfg) (performance.Calculator.ComputeValues.init (calcGo cur cfg),
+        performance.Calculator.ComputeFlows.init (calcGo cur cfg)) xs = .ok ds ∧
+      perfRun (TransDate.partitionGo part) (performance.Perf.init j (TransDate.partitionGo part) ds0) ds =
+        .ok ⟨ds0, part.startDates, r',
+          (Performance.perfLines (Performance.perfSpan part) part.endDates (some 1) (perfDaysV cfg ([], []) ms)).map lineGo⟩ := by
+  obtain ⟨ds, h1, h2⟩ := perfDays_agrees cur cfg xs ms _ (performance.Calculator.ComputeFlows.init (calcGo cur cfg)) [] []
+    (ComputeValues_init_agrees cur (calcGo cur cfg)) hin hlen
+  obtain ⟨r', h3⟩ := Perf_days_agrees cur part ds0 hds ds _ h2 hdef 1 []
+  exact ⟨ds, r', h1, by rw [Perf_init_agrees]; simpa using h3⟩
+
 end Knut.FactsAgree.TransPerformance
